@@ -219,7 +219,8 @@ def r184(ctx):
     ok = len(dst) == 1
     if ok:
         e = dst[0]
-        kind = A.at(e, "c_t")
+        tn = e.data["target_node"]
+        kind = A.at(e, ast.unparse(tn.value.slice))
         meth = e.data["key"]
         src = extract_list(e.data["value"], FALSE)
         ok = src is not None and src.op == "call" and src.args[0] is glob(quant) and dict(src.args[2]).get("quantiles") is qs
